@@ -308,7 +308,7 @@ class Ctx:
                 self.known_hits.append(msg)
             self.count(f"known_finding:{function}:{klass}")
             return False
-        if len(self.violations) >= 20:
+        if len(self.violations) >= 5:
             self.count("violations_not_written")
             return True
         REPLAYS.mkdir(exist_ok=True)
